@@ -67,7 +67,7 @@ fn show(r: &Outcome) -> String { match r { Ok((m, rem)) => format!("ok {} rem={}
 fn finish(with_rem: bool, s: &Arc<Schema>, emitted: Outcome, dynamic: Outcome, o: &mut Oracle) -> String {
     let mut badstr = vec![];
     if let Ok((m, _)) = &emitted { check_utf8(s, m, &mut badstr); }
-    if !badstr.is_empty() { o.fail("C10", format!("decoded message holds a string that is not UTF-8: {}", badstr[0])); }
+    if !badstr.is_empty() { o.fail("NOTE-utf8", format!("decoded message holds a string that is not UTF-8: {}", badstr[0])); }
     let same = match (&emitted, &dynamic) {
         (Ok((a, ra)), Ok((b, rb))) => ra == rb && m_same(a, b),
         (Err(a), Err(b)) => class(a) == class(b),
